@@ -69,6 +69,7 @@ Example C06_exact_fit_kept :
   resize 69 [c; a; a] = [c; a] /\ resize 68 [c; a; a] = [c].
 Proof. vm_compute. split; reflexivity. Qed.
 
+Print Assumptions C06_TInv_is.
 Print Assumptions C06_init.
 Print Assumptions C06_add.
 Print Assumptions C06_set_maxsize.
